@@ -58,6 +58,9 @@ type Interp struct {
 	// WrapEq: equalities of integers wider than 4 bits become one named atom
 	// (with its definition kept), so residual formulas stay small.
 	WrapEq bool
+	// TermEq: equalities of wide integers become eq(term, term) atoms, so the
+	// constants compared against stay visible to the rules.
+	TermEq bool
 	// hooks for rule-specific modelling
 	MapLookup  func(f *frame, x *ssa.Lookup, st *State) Val
 	Intrinsic  func(fn *ssa.Function, args []Val, st *State) (Val, bool)
